@@ -30,6 +30,7 @@ META = dict(
          "interleave_values) and D8 (np.repeat for tile) were repaired with fix: commits.",
     technique="resolved-callee rule, first-crossing idiom as a term identity, scope resolution (unbound-name) lint, fold recognisers",
 )
+META["text"] += " R6 also requires the helper's placement order: one-vote values first, two-vote values overwrite them, as in the core."
 
 
 def run(chk):
